@@ -617,8 +617,14 @@ NEG, EMPTY, NEWLINE, GHOST, DIRS, SUBREC = (
     "recursive-wildcard-in-sub-pattern",            # ${*n} with n='**' is compiled out of context
 )
 CAUSES = [NEG, EMPTY, NEWLINE, GHOST, DIRS, SUBREC]
-_STAR = r"(?:\[\^/\][*+]|\(\?P<\w+>\[\^/\][*+]\))"
-_TRAILING_RUN = re.compile(r"(?:/|\(\?:\.\*/\|\))(" + _STAR + r"+)/\?$")
+_STAR = r"(?:\[\^/\][*+]|\(\?P<\w+>\[\^/\][*+]\)|\(\?P=\w+\))"
+# the parts after the last separator, when each of them is a single-component wildcard or a back-reference
+_TRAILING_RUN = re.compile(r"(?:/|\(\?:\.\*/\|\))(" + _STAR + r"+)(?:/\?)?$")
+
+
+def wf_path_py(s):
+    """Canonical relative path: non-empty components, optionally one trailing separator."""
+    return bool(s) and not s.startswith("/") and "//" not in s
 
 
 def expand_subs(pattern, subs):
@@ -784,6 +790,7 @@ WITNESSES = [
     ({"d": {}}, "d/*${*n}", {}),
     ({"d": {}}, "d/**/*", {}),
     ({"aa": {"aa": None}}, "*${*n}aa", {"n": "**"}),
+    ({"a": {}}, "a${*n}/${*n}", {}),
     ({"d": {"n\nl": None}}, "d/**", {}),
 ]
 
@@ -835,6 +842,8 @@ def oracle_named_vs_star(ctx):
             continue
         strings = {mutate(rng, instantiate(rng, p, {})) for _ in range(6)} | {mutate(rng, instantiate(rng, q, {})) for _ in range(3)}
         for s in sorted(strings):
+            if not wf_path_py(s):
+                continue
             ma, mb = a._regex.fullmatch(s) is not None, b._regex.fullmatch(s) is not None
             ctx.case(("O3", p, i, s), ma or mb)
             if ma != mb and fails < 1:
@@ -844,6 +853,19 @@ def oracle_named_vs_star(ctx):
                                 f"wildcard) {'accepts' if mb else 'rejects'} it",
                                 witness={"anonymous": p, "named": q, "path": s})
     ctx.count("O3_failures", fails)
+
+
+def _spelled_tokens(pattern, name, value):
+    """Token codes of `pattern` with ${*name} read as the literal text `value`."""
+    out = []
+    for tok in py_tokens(pattern):
+        if tok == "N" + name:
+            tok = "L" + value
+        if tok.startswith("L") and out and out[-1].startswith("L"):
+            out[-1] += tok[1:]
+        elif tok != "L":
+            out.append(tok)
+    return out
 
 
 def oracle_repeated(ctx):
@@ -872,10 +894,11 @@ def oracle_repeated(ctx):
             continue
         for _ in range(5):
             s = mutate(rng, instantiate(rng, p, subs))
-            if len(s) > 14 or s.endswith("/") or any(ch in s for ch in "*?[]$\n"):
+            if len(s) > 14 or s.endswith("/") or any(ch in s for ch in "*?[]$\n") or not wf_path_py(s):
                 continue
             got = ng._regex.fullmatch(s)
             expect = False
+            judged = True
             for i in range(len(s) + 1):
                 for j in range(i, len(s) + 1):
                     v = s[i:j]
@@ -884,6 +907,11 @@ def oracle_repeated(ctx):
                     lit = p.replace("${*" + name + "}", v)
                     if not lit:
                         expect = expect or s == ""
+                        continue
+                    if _spelled_tokens(p, name, v) != py_tokens(lit):
+                        # spelling the name out changed how the rest of the pattern is read (e.g. `**/`
+                        # moved to the start): this value cannot be judged by substitution
+                        judged = False
                         continue
                     try:
                         # the pattern with the name spelled out, compiled without post-processing of that text
@@ -897,6 +925,9 @@ def oracle_repeated(ctx):
                 # every occurrence must spell the captured text: count occurrences in s
                 if s.count(v) < nm.count(name) and v:
                     expect = False
+            if not judged:
+                ctx.count("O4_not_judged")
+                continue
             if (got is not None) != expect and fails < 1:
                 fails += 1
                 ctx.add_failure("oracle", "O4:repeated-name", "O4:repeated-name-unequal-substrings",
